@@ -173,14 +173,31 @@ def splitLast (p : Bytes) (c : UInt8) : Option (Bytes × Bytes) :=
   | (_, []) => none
   | (suf, _ :: pre) => some (pre.reverse, suf.reverse)
 
-def fileName (p : Bytes) : Bytes := match splitLast p 47 with | some (_, f) => f | none => p
-def dirPart (p : Bytes) : Bytes := match splitLast p 47 with | some (d, _) => d ++ [47] | none => []
+/-- trailing separators and trailing `/.` do not belong to the last component (`sub/`, `sub/.` name `sub`); fuel = length -/
+def trimTrailFuel : Nat → Bytes → Bytes
+  | 0, p => p
+  | f + 1, p =>
+    match p.reverse with
+    | 47 :: r => if r.isEmpty then p else trimTrailFuel f r.reverse              -- "x/"  (a lone "/" stays)
+    | 46 :: 47 :: r => if r.isEmpty then p else trimTrailFuel f r.reverse        -- "x/."
+    | _ => p
+def trimTrail (p : Bytes) : Bytes := trimTrailFuel p.length p
+
+def fileName (p0 : Bytes) : Bytes := let p := trimTrail p0; match splitLast p 47 with | some (_, f) => f | none => p
+def dirPart (p0 : Bytes) : Bytes := let p := trimTrail p0; match splitLast p 47 with | some (d, _) => d ++ [47] | none => []
 
 def extension (p : Bytes) : Option Bytes :=
   let f := fileName p
   match splitLast f 46 with
   | some (stem, ext) => if stem.isEmpty then none else some ext
   | none => none
+
+/-- `Path::file_name` is `None`: the path is empty, `/`, `.` or ends in `..` (empty components and `.` do not count) -/
+def noFileName (p : Bytes) : Bool :=
+  let comps := (p.splitOn 47).filter fun c => !c.isEmpty && c != [46]
+  match comps.getLast? with
+  | none => true
+  | some c => c == [46, 46]
 
 /-- `Path::with_extension` for paths whose last component is a plain file name -/
 def withExtension (p : Bytes) (ext : Bytes) : Bytes :=
@@ -367,7 +384,9 @@ def finish (plusplus : Bool) (st : St) : PRes :=
   | some input =>
     match resolveLang plusplus st input with
     | none => .cannotCache (sb "unknown source language")
-    | some lang => .ok (finishWith st input lang)
+    | some lang =>
+      if st.output.isNone && noFileName input then .cannotCache (sb "no output file name")      -- fix F-C14-d: `..` has no name to derive the object's from
+      else .ok (finishWith st input lang)
 
 /-- one iteration of the second loop of `parse_arguments`: the values collected from `-Xclang` are parsed again (both tables, no
     `--` mode) and sorted into the same lists, each string preceded by `-Xclang`; `follows` = the previous argument was `-plugin-arg` -/
